@@ -26,6 +26,9 @@ Require Import Ctpg.Valid.LRProductive.
 Require Import Ctpg.Proofs.TermViable.
 Require Import Ctpg.Proofs.TermAll.
 Require Import Ctpg.Proofs.TermGeneric.
+Require Import Ctpg.Proofs.TermRecMachine.
+Require Import Ctpg.Proofs.TermRecAll.
+Require Import Ctpg.Proofs.GenTermChecks.
 From Coq Require Import Permutation.
 
 (* every unchecked array/stack access of the driver (table row and column, rule_infos, erase/back/pop on the stacks, the goto after a reduction, the lexeme extent) is in range: the run never ends in Crash, for any input, options, stack capacity, functors, also through error recovery *)
@@ -70,11 +73,29 @@ Theorem C06_terminates_on_accepted_inputs :
 Proof. exact accepted_fuel_exact. Qed.
 Print Assumptions C06_terminates_on_accepted_inputs.
 
-(* TERMINATION ON EVERY INPUT, accepted or not: for any functors, options, buffer and lexer (non-empty in-range lexemes), a table that passes term_checks (validated LR(1) automaton with justified lookaheads of a productive grammar - discharged on the real tables) and has no error rules: some fuel suffices and more fuel changes nothing *)
+(* TERMINATION ON EVERY INPUT, accepted or not, WITH OR WITHOUT ERROR RULES: for any functors, options, buffer and lexer (non-empty in-range lexemes), a table that passes term_checks (validated LR(1) automaton with justified lookaheads of a productive grammar - discharged on the real tables): some fuel suffices and more fuel changes nothing *)
 Theorem C06_terminates_on_every_input :
+  forall (V C : Type) (g : grammar) (sts : list items) (tbl : LRGen.table) (opts : options) (buf : list nat) (lexer : bool -> spoint -> list nat -> list lex_event * option (nat * nat)) (term_f : nat -> nat -> nat -> spoint -> V) (err_f : spoint -> V) (rule_f : nat -> C -> list V -> C * V) (c0 : C), term_checks g sts tbl = true -> lexer_ok_for g lexer -> lexer_in_range lexer -> exists fuel : nat, forall fuel' : nat, fuel <= fuel' -> fst (fst (run V C g tbl opts buf None lexer term_f err_f rule_f fuel' c0)) = fst (fst (run V C g tbl opts buf None lexer term_f err_f rule_f fuel c0)) /\ fst (fst (run V C g tbl opts buf None lexer term_f err_f rule_f fuel c0)) <> OutOfFuel.
+Proof. exact generic_run_halts_recovery_checked. Qed.
+Print Assumptions C06_terminates_on_every_input.
+
+(* the reason with error rules: after the error symbol has been shifted, the first term that is not discarded is shifted after finitely many reductions, with no further error in between *)
+Theorem C06_every_recovery_cycle_consumes_a_term :
+  forall (g : grammar) (sts : list items) (tbl : LRGen.table) (cur : nat) (ss : list nat) (trs : list tree) (a : nat) (v : list nat) (cur1 : nat) (ss1 : list nat) (trs1 : list tree) (e : entry), validate g sts tbl = true -> lookahead_generated g sts -> ReportViable.states_nonempty sts -> reduce_lookahead g sts tbl -> ReportLang.productive g -> MInv g sts (cur :: ss) trs -> mshift g tbl (cur :: ss, trs, err_idx g :: a :: v) = Some (cur1 :: ss1, trs1, a :: v) -> a < eof_idx g -> cell tbl cur1 (nterm_count g + a) = inl e -> e_kind e <> KError -> exists (n : nat) (c1 c2 : LRMachine.cfg), rsteps g tbl n (cur1 :: ss1, trs1, a :: v) c1 /\ mshift g tbl c1 = Some c2 /\ snd c2 = v.
+Proof. exact recovery_cycle_progress. Qed.
+Print Assumptions C06_every_recovery_cycle_consumes_a_term.
+
+(* the version for tables without error rules *)
+Theorem C06_terminates_without_error_rules :
   forall (V C : Type) (g : grammar) (sts : list items) (tbl : LRGen.table) (opts : options) (buf : list nat) (lexer : bool -> spoint -> list nat -> list lex_event * option (nat * nat)) (term_f : nat -> nat -> nat -> spoint -> V) (err_f : spoint -> V) (rule_f : nat -> C -> list V -> C * V) (c0 : C), term_checks g sts tbl = true -> no_error_symbol g tbl = true -> lexer_ok_for g lexer -> lexer_in_range lexer -> exists fuel : nat, fst (fst (run V C g tbl opts buf None lexer term_f err_f rule_f fuel c0)) <> OutOfFuel.
 Proof. exact generic_run_halts_checked. Qed.
-Print Assumptions C06_terminates_on_every_input.
+Print Assumptions C06_terminates_without_error_rules.
+
+(* THE GENERATOR, for all grammars: a conflict-free table it builds passes term_checks exactly when the grammar is productive - so termination holds for every parser generated from a productive conflict-free grammar *)
+Theorem C06_generated_tables_pass_the_termination_checks :
+  forall (g : grammar) (lim : limits) (sts : list lrstate) (tbl : LRGen.table), grammar_wf g = true -> GenWf.grammar_wf_extra g = true -> gen_with g lim = inl (sts, tbl) -> GenCorrect.conflict_free g (length sts) tbl = true -> GenCorrect.accept_clean g sts = true -> term_checks g (map st_all sts) tbl = productiveb g.
+Proof. exact gen_term_checks_productive. Qed.
+Print Assumptions C06_generated_tables_pass_the_termination_checks.
 
 (* the LR machine itself (shift/reduce/accept/error cell) halts on every token string, error rules or not: no endless chain of reductions *)
 Theorem C06_machine_halts_also_with_error_rules :
